@@ -31,7 +31,7 @@ EX_MISC = ['se ai', 'se noai', 'se ic', 'se noic', 'se hl', 'se nohl', 'se hll',
            'ft', 'ft c', 'ft py', 'ft nosuch', 'cm', 'cm fa', 'cm! fa', 'cm en', 'cm nosuch', 'ta foo', 'ta main', 'ta nosuch', 'tn', 'tp', 'po', 'tf',
            'k a', 'ka', '2ka', 'k', "'a", "'ap", "'a,'bd", "'z", '=', '$=', '.=', '0=', 'p', '1,$p', '%p', '0p', '99p', '$+1p', '1,0p', '2,1p', '.,+3p', '-5p', '/a/p', '?a?p', '/zzz/p', '//p', '/a/;/b/p',
            '', ' ', ':', '::', '|', '||', 'd|d', 'p|p|p', '"comment', 'p "c', 'u', 'u', 'redo', 'redo', 'u|u', 'ec', 'ec hi', 'ec %', 'ec #', 'unknowncmd', 'zz', '1', '$', '0', '5', '+', '-', '+5', '-5',
-           's', 's/a', 's/a/', 's/a/b', 's//x/', 's/a/b/g', '&', '~', 's/\\(/x/', 's/(/x/', 's/[/x/', 's/a{3,1}/x/', 's/a/\\1/', 's/(a)|b/\\1\\2\\9/g', 's/x*/-/g', 's/$/\\n/', 's/^/\\//',
+           's', 's/a', 's/a/', 's/a/b', 's//x/', 's/a/b/g', '&', '~', 's/\\(/x/', 's/(/x/', 's/[/x/', 's/a{3,1}/x/', 's/a{1,200}/x/', 's/x{,1000}/y/', 's/a{0,129}//', 'rs a\n@a\n.\n@a', 'rs a\n@b\n@a\n.\nrs b\np\n.\n@a', 's/a/\\1/', 's/(a)|b/\\1\\2\\9/g', 's/x*/-/g', 's/$/\\n/', 's/^/\\//',
            'g', 'g/', 'g/a', 'g/a/', 'g//d', 'g/a/g/b/d', 'g/a/g/b/g/c/p', 'g/a/a', 'g/a/i', 'g/a/c', 'g/./d|u', 'g/a/u', 'g/a/e f2', 'g/a/b 2', 'v/a/d', 'g!/a/d', 'g/a/s//x/|s/x/y/', 'g/a/-1d', 'g/a/+1d', 'g/a/1,$d',
            'a', 'i', 'c', '0a', '0i', '0c', '$a', '1,2c', '99a', 'a|p', 'rs a', 'rs', 'rs \\x']
 
@@ -240,7 +240,8 @@ def execute(vi, case, timeout=25, msan=False, idle=None):
     if idle is None:
         r = common.run(argv + case['args'], data, d, env, timeout, preexec=drop_priv)
     else:
-        r = common.run_progress(argv + case['args'], data, d, env, idle=idle, total=timeout, preexec=drop_priv)
+        tail = common.VI_QUIT * 20 if case['mode'] == 'v' else (common.EX_QUIT * 40 if case['mode'] == 'se' else b'\x05.\n\x05q!\n' * 6000)
+        r = common.run_progress(argv + case['args'], data, d, env, idle=idle, total=timeout, preexec=drop_priv, more=tail, more_times=3)
     common.rmcase(d)
     return r
 
@@ -258,8 +259,14 @@ def run_case(args):
         r2, state, ncmd = execute(vi, case, timeout=150, msan=msan, idle=60)
         if state == 'stuck':
             r3, state3, ncmd3 = execute(common.build('plain'), case, timeout=300, idle=120)
-            if state3 == 'stuck':      # ('starved' = the stream ended inside a text block: every :g/re/a execution reads one)
+            if state3 in ('stuck', 'unresponsive'):      # ('starved' = the stream ended inside a text block: every :g/re/a execution reads one)
                 r3.err = (r3.err or b'') + b'[%d commands executed before the last one never returned]' % ncmd3
+                return ('hang', case, r3)
+            return ('slow', case, r3)
+        if state == 'unresponsive':
+            r3, state3, ncmd3 = execute(common.build('plain'), case, timeout=300, idle=120)
+            if state3 == 'unresponsive':
+                r3.err = (r3.err or b'') + b'[still waiting for input after the stream and 3 x 6000 further quit commands: the editor no longer reacts to commands]'
                 return ('hang', case, r3)
             return ('slow', case, r3)
         if state in ('running', 'starved'):
